@@ -14,6 +14,7 @@ open Cherab.Props.C18 Cherab.Props.C18Real
 #print axioms const_bins_inside
 #print axioms const_bin_power_is_integral
 #print axioms const_total_power_one
+#print axioms const_density_total_power_one
 -- Gaussian beam width, normalisation
 #print axioms rayleigh_formula
 #print axioms gbm_sigma_formula
